@@ -704,16 +704,45 @@ def text_rules(ctx, repo):
                     w = local_w[s.id]
                 if w is not None:
                     widths[n.arg] = w
+    # table-driven reader: {name: data[where] for name, where in <constant table of slices>.items()} passed on as keywords
+    for n in ast.walk(rd.node):
+        if isinstance(n, ast.DictComp) and len(n.generators) == 1 and isinstance(n.value, ast.Subscript) and isinstance(n.value.slice, ast.Name) \
+                and isinstance(n.generators[0].target, ast.Tuple) and len(n.generators[0].target.elts) == 2 and not n.generators[0].ifs \
+                and isinstance(n.key, ast.Name) and isinstance(n.generators[0].iter, ast.Call) and isinstance(n.generators[0].iter.func, ast.Attribute) \
+                and n.generators[0].iter.func.attr == "items":
+            kn, vn = n.generators[0].target.elts
+            table = const(n.generators[0].iter.func.value)
+            if isinstance(kn, ast.Name) and isinstance(vn, ast.Name) and kn.id == n.key.id and vn.id == n.value.slice.id and isinstance(table, dict):
+                for name, so in table.items():
+                    if isinstance(name, str) and isinstance(so, slice) and so.step in (None, 1) and isinstance(so.stop, int) and (so.start or 0) <= so.stop:
+                        widths.setdefault(name, so.stop - (so.start or 0))
     # declared type of each attribute
     types = {}
     for n in ast.walk(init.node):
         if isinstance(n, ast.AnnAssign) and isinstance(n.target, ast.Attribute):
             types[n.target.attr] = ast.unparse(n.annotation)
     found = 0
-    for n in ast.walk(wr.node):
-        if isinstance(n, ast.FormattedValue) and isinstance(n.value, ast.Attribute) and isinstance(n.value.value, ast.Name) and n.value.value.id == "self":
-            fld = n.value.attr
-            spec = "".join(v.value for v in n.format_spec.values if isinstance(v, ast.Constant)) if n.format_spec else ""
+    # the writer and the helper methods of the class it calls (self._speed_text() ...), transitively
+    writers, seen_w = [wr], {wr.qualname}
+    for h in writers:
+        for n in ast.walk(h.node):
+            if isinstance(n, ast.Call) and isinstance(n.func, ast.Attribute) and isinstance(n.func.value, ast.Name) and n.func.value.id in ("self", "cls", gci.name):
+                m_ = repo.find_method(gci, n.func.attr)
+                if m_ is not None and m_.qualname not in seen_w and m_.name not in ("__repr__", "__str__", "from_bytes") and len(writers) < 24:
+                    seen_w.add(m_.qualname)
+                    writers.append(m_)
+    for n in (x for h in writers for x in ast.walk(h.node)):
+        # f"{self.fld:spec}"  or  format(self.fld, "spec")
+        is_fs = isinstance(n, ast.FormattedValue) and isinstance(n.value, ast.Attribute) and isinstance(n.value.value, ast.Name) and n.value.value.id == "self"
+        is_fc = isinstance(n, ast.Call) and isinstance(n.func, ast.Name) and n.func.id == "format" and len(n.args) == 2 and not n.keywords \
+            and isinstance(n.args[0], ast.Attribute) and isinstance(n.args[0].value, ast.Name) and n.args[0].value.id == "self" \
+            and isinstance(n.args[1], ast.Constant) and isinstance(n.args[1].value, str)
+        if is_fs or is_fc:
+            fld = n.value.attr if is_fs else n.args[0].attr
+            if is_fs:
+                spec = "".join(v.value for v in n.format_spec.values if isinstance(v, ast.Constant)) if n.format_spec else ""
+            else:
+                spec = n.args[1].value
             w = widths.get(fld)
             if w is None:
                 continue
